@@ -395,8 +395,13 @@ fn binary_case(cx: &mut CaseCtx, input: Input) -> CaseResult {
         // now and then a long value or many pairs ("any list of key/value arguments")
         match u.arbitrary::<u8>().unwrap_or(0) % 8 {
             0 => {
-                let n = [300usize, 1100, 2100, 5000][(u.arbitrary::<u8>().unwrap_or(0) % 4) as usize];
-                g.args.push(("long".into(), "v,=é".repeat(n / 5)));
+                // (63 / 64 and 16383 / 16384 bytes are where the size prefix of a string changes width)
+                let n = [63usize, 64, 65, 300, 1100, 2100, 5000, 16383, 16384, 16385][(u.arbitrary::<u8>().unwrap_or(0) % 10) as usize];
+                let mut v = "v,=é".repeat(n / 5);
+                while v.len() < n {
+                    v.push('x');
+                }
+                g.args.push(("long".into(), v));
                 cx.label("binary-long-value");
             }
             1 => {
@@ -529,7 +534,7 @@ impl Check for C19 {
         "C19"
     }
     fn rule(&self) -> String {
-        "families: exhaustive = every string of length <= N (5 quick, 6 thorough) over {a,space,',','=','\\'} x 3 argv spellings, compared with a reference parser written from the statement (accept/reject and values); roundtrip = proptest choice sequences -> 1..3 specs of random Unicode path + 0..6 pairs rendered through the escaping function with random white space / trailing comma / omitted '=' for empty values, parsed back in-process; binary = an argument-less generator followed by 1..3 specs naming one of two generators (so that the same path is given twice in a row, or with the other one in between), now and then with a value of up to 5000 characters or 48 extra pairs, given to the real slicec binary: every specification starts its generator once, in order, and the argument section each invocation reads decodes to its own pairs. Non-trivial = the spec contains a separator, an escape or a backslash; distinct by (family, input)".into()
+        "families: exhaustive = every string of length <= N (5 quick, 6 thorough) over {a,space,',','=','\\'} x 3 argv spellings, compared with a reference parser written from the statement (accept/reject and values); roundtrip = proptest choice sequences -> 1..3 specs of random Unicode path + 0..6 pairs rendered through the escaping function with random white space / trailing comma / omitted '=' for empty values, parsed back in-process; binary = an argument-less generator followed by 1..3 specs naming one of two generators (so that the same path is given twice in a row, or with the other one in between), now and then with a value of 63 .. 16385 bytes (incl. the sizes at which the wire's size prefix changes width) or 48 extra pairs, given to the real slicec binary: every specification starts its generator once, in order, and the argument section each invocation reads decodes to its own pairs. Non-trivial = the spec contains a separator, an escape or a backslash; distinct by (family, input)".into()
     }
     fn assumptions(&self) -> Vec<String> {
         vec![
